@@ -78,8 +78,8 @@ def random_specs(rng, n):
             if rng.random() < 0.15:
                 v.disabled = True
             vs.append(v)
-        out.append(EnumSpec("R%d" % k, vs, serialize_all=rng.choice([None] + casing.ALL_STYLE_STRINGS),
-                            prefix=rng.choice([None, None, "p-", ""]), const_into_str=rng.random() < 0.3, role="random", note="random"))
+        out.append(decorate(rng, EnumSpec("R%d" % k, vs, serialize_all=rng.choice([None] + casing.ALL_STYLE_STRINGS),
+                            prefix=rng.choice([None, None, "p-", ""]), const_into_str=rng.random() < 0.3, role="random", note="random")))
     return out
 
 
